@@ -315,7 +315,47 @@ def rule_unnormalised_exponent(ctx):
             construct = f.qualname
             first = pieces[0]
             what = "a slice / site tensor of the state" if isinstance(first, ast.Subscript) else f"`{src_of(first)[:40]}`"
-            if reads:
+            # every return that hands back something computed from the evaluation comes after a rescale (a return of the
+            # normalised value -- under a test on `normalized` alone -- needs none)
+            early = None
+            if reads and evals and not is_cluster_ctor:
+                read_lines = [x.lineno for x in walk if isinstance(x, ast.Attribute) and x.attr == "exponent" and isinstance(x.value, ast.Name) and x.value.id == "self" and id(x) not in in_tests]
+                ev_ids_all = {id(e) for e in evals}
+                dv = set()
+                changed = True
+                while changed:
+                    changed = False
+                    for a in walk:
+                        if isinstance(a, ast.Assign):
+                            if any(id(y) in ev_ids_all or (isinstance(y, ast.Name) and y.id in dv) for y in ast.walk(a.value)):
+                                for t in a.targets:
+                                    base = t
+                                    while isinstance(base, (ast.Subscript, ast.Attribute)):
+                                        base = base.value
+                                    names = [base] if isinstance(base, ast.Name) else [e for e in ast.walk(t) if isinstance(e, ast.Name) and isinstance(e.ctx, ast.Store)]
+                                    for nm in names:
+                                        if nm.id not in dv and nm.id != "self":
+                                            dv.add(nm.id)
+                                            changed = True
+                norm_only = set()
+                for st in walk:
+                    if isinstance(st, ast.If) and isinstance(st.test, ast.Name) and st.test.id == "normalized":
+                        for x in st.body:
+                            for y in ast.walk(x):
+                                if isinstance(y, ast.Return):
+                                    norm_only.add(id(y))
+                for ret in walk:
+                    if isinstance(ret, ast.Return) and ret.value is not None and id(ret) not in norm_only \
+                            and any((isinstance(y, ast.Name) and y.id in dv) or id(y) in ev_ids_all for y in ast.walk(ret.value)) \
+                            and not any(ln <= ret.lineno for ln in read_lines):
+                        early = ret
+                        break
+            if early is not None:
+                r.bad(Finding("unnormalised-exponent", construct,
+                              f"`{src_of(early)[:50]}` (line {early.lineno}) hands back values computed from {what} before self.exponent is applied (the rescale only "
+                              "happens further down): the unnormalised values returned on this exit are off by 10**(2*exponent)",
+                              where=f"{f.module.relpath}:{early.lineno}", operand="exponent:early-return"))
+            elif reads:
                 r.ok(construct, sample={"route": f.qualname, "built from": what, "exponent": "read"})
             else:
                 r.bad(Finding("unnormalised-exponent", construct,
